@@ -444,6 +444,11 @@ def override_pass(ctx):
         mk = lambda k: E.EOperation(name, params=[E.EParameter(f'p{i}', E.EInt, required=True) for i in range(k)])
         steps = ['inherit', 'leaf', 'base-op', 'sub-op', 'inst']
         rng.shuffle(steps)
+        behaved = []
+        if rng.random() < .4:
+            # a behaviour given to the supertype's operation (a real method instead of the stub): the subtype's own
+            # declaration still gets its own stub
+            steps.insert(steps.index('base-op') + 1 + rng.randrange(len(steps) - steps.index('base-op')), 'base-behaviour')
         made, log = {}, []
         sub_op = None
         problem = None
@@ -455,6 +460,12 @@ def override_pass(ctx):
                 for o in k.eOperations:
                     if o.name == name:
                         return len(o.eParameters)
+            return None
+
+        def nearest(cls):
+            for k in [cls] + supers_of(cls):
+                if any(o.name == name for o in k.eOperations):
+                    return k
             return None
 
         def judge(when):
@@ -476,7 +487,7 @@ def override_pass(ctx):
                         out = 'TypeError'
                     except Exception as e:
                         out = type(e).__name__
-                    ok = 'stub' if k == want else 'TypeError'
+                    ok = ('returned' if nearest(cls) in behaved else 'stub') if k == want else 'TypeError'
                     if out != ok:
                         return (f'{when}: {label} instance, nearest declaration takes {want} parameter(s): the call with {k} '
                                 f'argument(s) gave {out}, expected {ok}')
@@ -492,6 +503,12 @@ def override_pass(ctx):
                 elif st == 'sub-op':
                     sub_op = mk(ns)
                     Sub.eOperations.append(sub_op)
+                elif st == 'base-behaviour':
+                    from pyecore.behavior import behavior
+                    ns_ = {}
+                    exec(f"def {mn}(self{''.join(', p%d' % i for i in range(nb))}):\n    return 'ran'\n", ns_)
+                    behavior(Base)(ns_[mn])
+                    behaved.append(Base)
                 elif st == 'remove-sub-op':
                     Sub.eOperations.remove(sub_op)
                 else:
